@@ -15,10 +15,10 @@ import (
 type recorder struct{ buf []byte }
 
 func (r *recorder) Write(p []byte) (int, error) { r.buf = append(r.buf, p...); return len(p), nil }
-func (r *recorder) Sum(b []byte) []byte          { return append(b, r.buf...) }
-func (r *recorder) Reset()                       { r.buf = nil }
-func (r *recorder) Size() int                    { return 8 }
-func (r *recorder) BlockSize() int               { return 32 }
+func (r *recorder) Sum(b []byte) []byte         { return append(b, r.buf...) }
+func (r *recorder) Reset()                      { r.buf = nil }
+func (r *recorder) Size() int                   { return 8 }
+func (r *recorder) BlockSize() int              { return 32 }
 
 func randBytes(r *Rng, max int) []byte {
 	n := r.Intn(max + 1)
